@@ -39,10 +39,22 @@ def rand_bytes(rng, n):
 _FACADES = {}
 
 
+PRIVATE_SEED = bytes(range(7, 39))
+
+
 def facade_of(net, network):
 	key = (net, network)
 	if key not in _FACADES:
-		if net == 'sym':
+		if net == 'sym' and network.startswith('private-'):
+			# a network OBJECT with the name and identifier of a shipped network but its own generation hash seed (a private chain)
+			import datetime
+			from symbolchain.CryptoTypes import Hash256
+			from symbolchain.facade.SymbolFacade import SymbolFacade
+			from symbolchain.symbol.Network import Network
+			stock = {'testnet': Network.TESTNET, 'mainnet': Network.MAINNET}[network[len('private-'):]]
+			private = Network(stock.name, stock.identifier, datetime.datetime(2022, 1, 1, tzinfo=datetime.timezone.utc), Hash256(PRIVATE_SEED))
+			_FACADES[key] = SymbolFacade(private)
+		elif net == 'sym':
 			from symbolchain.facade.SymbolFacade import SymbolFacade
 			_FACADES[key] = SymbolFacade(network)
 		else:
@@ -183,7 +195,7 @@ def gen_sign_cases(rng, count):
 	keys = 0
 	while len(cases) < count:
 		net = 'sym' if keys % 2 == 0 else 'nem'
-		network = rng.choice(['mainnet', 'testnet'])
+		network = rng.choice(['mainnet', 'testnet'] + (['private-testnet', 'private-mainnet'] if net == 'sym' else []))
 		secret = special.pop() if special and keys % 9 == 4 else rand_bytes(rng, 32)
 		transactions = build_transactions(rng, net, network, secret)
 		rng.shuffle(transactions)
@@ -213,6 +225,8 @@ def impl_sign(case):
 
 
 def seed_of(case):
+	if case['net'] == 'sym' and case['network'].startswith('private-'):
+		return PRIVATE_SEED      # what the facade was GIVEN, not what it holds
 	return facade_of(case['net'], case['network']).network.generation_hash_seed.bytes if case['net'] == 'sym' else b''
 
 
